@@ -168,6 +168,16 @@ func claimsSafety(spec *FuncSpec, sub string) bool {
 	return false
 }
 
+func assumedAfter(kind string) bool {
+	switch kind {
+	case "pre", "assert", "inv-entry", "inv-step":
+		// (a monitor invariant checked at an Unlock is assumed by OTHER threads at their Lock, not by the rest of this
+		// function: it stays with the properties it is labelled with)
+		return true
+	}
+	return false
+}
+
 func hasProp(props []string, p string) bool {
 	for _, x := range props {
 		if x == p {
@@ -194,6 +204,23 @@ func specServes(f *FuncSpec, prop string) bool {
 	}
 	for _, l := range f.Loops {
 		for _, c := range l.Invariants {
+			if hasProp(c.Props, prop) {
+				return true
+			}
+		}
+	}
+	return false
+}
+
+// monitorServes: the function belongs to a package that declares a monitor invariant labelled with the property. A
+// monitor invariant is only as good as its weakest Unlock: every function under contract of that package is run, and
+// the monitor obligations it generates for that invariant are part of the property's check.
+func monitorServes(sp *Specs, f *FuncSpec, prop string) bool {
+	for _, m := range sp.Monitors {
+		if m.Pkg != f.Pkg {
+			continue
+		}
+		for _, c := range m.Inv {
 			if hasProp(c.Props, prop) {
 				return true
 			}
@@ -242,7 +269,7 @@ func cmdCheck(args []string) int {
 	activeKnown = known
 	var keys []string
 	for k, f := range sp.Funcs {
-		if f.Kind == "func" && !f.Trusted && specServes(f, *prop) {
+		if f.Kind == "func" && !f.Trusted && !f.Inline && !f.Havoc && (specServes(f, *prop) || monitorServes(sp, f, *prop)) {
 			keys = append(keys, k)
 		}
 	}
@@ -281,7 +308,12 @@ func cmdCheck(args []string) int {
 				}
 				o.Props = spec.Props
 			} else if !hasProp(o.Props, *prop) {
-				continue
+				// an obligation that the generator ASSUMES once it has been emitted (call preconditions, anchored
+				// assertions, invariants, monitor invariants) supports every later obligation of its function: if it
+				// fails, what was proved after it for this property was proved under a false assumption
+				if !(hasProp(spec.Props, *prop) && assumedAfter(o.Kind)) {
+					continue
+				}
 			}
 			obls = append(obls, o)
 		}
